@@ -19,6 +19,10 @@ type ioObj interface {
 
 var c18Durations = []time.Duration{1, time.Microsecond, time.Millisecond, 250 * time.Millisecond, time.Second, time.Hour}
 
+// timedLeaveEnds: the event injected during the call (the peer leaving) is a
+// legitimate end of the call (set for REP/RESPONDENT replies).
+var timedLeaveEnds bool
+
 // timedCall issues fn with deadline d already configured and judges its
 // timing. Returns the call and whether it blocked.
 func timedCall(w *W, label string, d time.Duration, timeoutErr error, fn func() (interface{}, error), during func()) (*Call, bool) {
@@ -35,6 +39,12 @@ func timedCall(w *W, label string, d time.Duration, timeoutErr error, fn func() 
 	}
 	if during != nil {
 		during()
+		// a reply blocked behind its requester's queue ends when that
+		// requester goes away (discarded, or a closed error): not a timeout matter
+		if timedLeaveEnds && c.Returned() && (c.Err == nil || c.Err == mangos.ErrClosed) {
+			w.Probe("blocked-reply-ended-by-requester-leaving")
+			return c, true
+		}
 	}
 	if d > 1 {
 		w.Sleep(d - 1)
@@ -104,6 +114,30 @@ func c18Run(w *W) {
 		w.Settle()
 	}
 	var obj ioObj = s
+	// a context may get its deadlines by inheritance: both are set on the
+	// socket (to different values) before the context is opened, none on the
+	// context itself
+	inherit := false
+	if useCtx && kind != "rep" && (mode == "recv-deadline" || mode == "send-deadline") && w.Choose(simrt.SShape, 2) == 0 { // (REP contexts start from defaults)
+		other := d + 13*time.Millisecond
+		var e1, e2 error
+		if mode == "recv-deadline" {
+			e1, e2 = s.SetOption(mangos.OptionRecvDeadline, d), s.SetOption(mangos.OptionSendDeadline, other)
+		} else {
+			e1, e2 = s.SetOption(mangos.OptionSendDeadline, d), s.SetOption(mangos.OptionRecvDeadline, other)
+		}
+		inherit = e1 == nil && e2 == nil
+		w.SetShape("inherited", inherit)
+		if inherit {
+			w.Probe("deadline-inherited-by-context")
+		}
+	}
+	setDL := func(name string, v time.Duration) error {
+		if inherit {
+			return nil
+		}
+		return obj.SetOption(name, v)
+	}
 	if useCtx {
 		c, err := s.OpenContext()
 		if err != nil {
@@ -133,7 +167,7 @@ func c18Run(w *W) {
 		if mode == "no-deadline-recv" {
 			dd = 0
 		}
-		if err := obj.SetOption(mangos.OptionRecvDeadline, dd); err != nil {
+		if err := setDL(mangos.OptionRecvDeadline, dd); err != nil {
 			// unsupported here, or this pattern does not accept the value
 			// (respondent refuses a zero receive deadline): not this property
 			w.Probe("deadline-not-accepted")
@@ -220,7 +254,7 @@ func c18Run(w *W) {
 				return
 			}
 		}
-		if err := obj.SetOption(mangos.OptionSendDeadline, d); err != nil {
+		if err := setDL(mangos.OptionSendDeadline, d); err != nil {
 			w.Probe("deadline-not-accepted")
 			if mode == "send-deadline" {
 				return
@@ -242,8 +276,21 @@ func c18Run(w *W) {
 			if kind == "xrep" || kind == "xrespondent" || kind == "xreq" || kind == "xsurveyor" || kind == "xpair1" || kind == "xstar" {
 				// raw senders supply the header; send via SendMsg
 			}
+			if i > 0 && (kind == "rep" || kind == "respondent") && peer != nil && peer.Open() {
+				// one reply per request: take another request first, so that the
+				// replies pile up behind the stalled requester's full queue
+				peer.Inject(inbound(kind, uint32(6+i), fmt.Sprintf("request%d", i)))
+				w.Settle()
+				rc := w.Do("Recv(request)", func() (interface{}, error) { return obj.Recv() })
+				w.Settle()
+				if !rc.Returned() || rc.Err != nil {
+					break
+				}
+			}
 			w.Op("%s Send %d deadline %v besteffort=%v", kind, i, d, mode == "best-effort")
+			timedLeaveEnds = kind == "rep" || kind == "respondent"
 			c, blocked := timedCall(w, fmt.Sprintf("%s.Send#%d", kind, i), d, wantTimeout, func() (interface{}, error) { return nil, obj.Send(body) }, leave)
+			timedLeaveEnds = false
 			if w.Failed() {
 				return
 			}
